@@ -308,12 +308,27 @@ func VerifHarness_C05_create_three() {
 
 // Names of different lengths (not multiples of 4, a sub-directory): every
 // packet body is padded with zeros of its own, whatever was written before it.
+// longName is a relative path of exactly n bytes made of 60-byte directory names.
+func longName(n int) string {
+	b := make([]byte, n)
+	for i := range b {
+		if i%61 == 60 && i < n-1 {
+			b[i] = '/'
+		} else {
+			b[i] = byte('a' + i%23)
+		}
+	}
+	return string(b)
+}
+
 func VerifHarness_C05_create_names() {
 	names := [][]string{
 		{"longer_name.bin", "a.txt"},
 		{"ab", "abcdefg", "x"},
 		{"sub/dir/file1", "q", "zz.tar.gz"},
-	}[rt.Choice("names", 3)]
+		{longName(257), "q"},
+		{longName(312), longName(256)},
+	}[rt.Choice("names", 5)]
 	useFileIDLessSpec()
 	s := &scenario{fs: newSymFS(), parity: 1}
 	for i, n := range names {
